@@ -467,8 +467,11 @@ def run_c16(run: core.Run, n_specs: int, n_wheels: int) -> None:
         for (x, y) in zip(lst, lst[1:]):
             n_oracle += 1
             ta, tb = Platform.parse(x[2]).compatible_tags, Platform.parse(y[2]).compatible_tags
-            if not set(ta) <= set(tb):
-                run.fail(core.Failure(f"newer|{x[2]}|{y[2]}", f"{y[2]} does not accept every tag of {x[2]}",
+            # ... as the EnvSpec ACCEPTS them, not only as the platform lists them (seed C16f: a quick reject in the scorer)
+            ea, eb = EnvSpec(parse_version_specifier(""), Platform.parse(x[2])), EnvSpec(parse_version_specifier(""), Platform.parse(y[2]))
+            lost = [t for t in ta if ea._evaluate_platform(t) is not None and eb._evaluate_platform(t) is None]
+            if not set(ta) <= set(tb) or lost:
+                run.fail(core.Failure(f"newer|{x[2]}|{y[2]}", f"{y[2]} does not accept every tag of {x[2]} (e.g. {lost[:2]})",
                                       {"op": "newer", "a": x[2], "b": y[2]}))
     run.extra["oracle_evaluations"] = n_oracle
 
@@ -493,12 +496,14 @@ def wheel_names(rng, n):
         parts = [name, ver]
         if rng.random() < 0.3:
             parts.append(rng.choice(["1", "2abc", "10_x", "2.whl"]))
-        py = ".".join(rng.sample(["py2", "py3", "cp39", "cp310", "pp39"], rng.randint(1, 3)))
-        abi = ".".join(rng.sample(["none", "abi3", "cp39", "cp310m", "pypy39_pp73"], rng.randint(1, 2)))
+        # (mixed-case tags too: packaging lower-cases them, fixed defect D31)
+        py = ".".join(rng.sample(["py2", "py3", "cp39", "cp310", "pp39", "CP39", "Py3"], rng.randint(1, 3)))
+        abi = ".".join(rng.sample(["none", "abi3", "cp39", "cp310m", "pypy39_pp73", "None", "ABI3"], rng.randint(1, 2)))
         # (tags ending in one of the characters of ".whl" too: seed C18c, rstrip(".whl") for removesuffix)
         plat = ".".join(rng.sample(["any", "linux_x86_64", "manylinux_2_17_x86_64", "manylinux2014_x86_64", "win_amd64",
                                     "macosx_10_9_universal2", "linux_armv7l", "manylinux2014_armv7l", "musllinux_1_1_armv7l",
-                                    "macosx_10_9_intel", "macosx_10_6_universal", "linux_ppc64le", "win32", "linux_sh"],
+                                    "macosx_10_9_intel", "macosx_10_6_universal", "linux_ppc64le", "win32", "linux_sh", "ANY", "Win_AMD64",
+                                    "manylinux_2_17_X86_64"],
                                    rng.randint(1, 3)))
         parts += [py, abi, plat]
         s = "-".join(parts) + ".whl"
@@ -662,4 +667,14 @@ def replay(data: dict) -> bool:
         a, b = mk_env(tuple(r["a"])), mk_env(tuple(r["b"]))
         w = [x.split(".") for x in r["wheel"]]
         return a.compatibility(*w) is not None and b.compatibility(*w) is None
+    if r["op"] == "newer":
+        ta, tb = Platform.parse(r["a"]).compatible_tags, Platform.parse(r["b"]).compatible_tags
+        ea, eb = EnvSpec(parse_version_specifier(""), Platform.parse(r["a"])), EnvSpec(parse_version_specifier(""), Platform.parse(r["b"]))
+        return not set(ta) <= set(tb) or any(ea._evaluate_platform(t) is not None and eb._evaluate_platform(t) is None for t in ta)
+    if r["op"] == "pscore":
+        env = EnvSpec(parse_version_specifier(""), Platform.parse(r["platform"]))
+        tags = [*Platform.parse(r["platform"]).compatible_tags, "any"]
+        if r["tag"] not in tags:
+            return env._evaluate_platform(r["tag"]) is not None
+        return env._evaluate_platform(r["tag"]) != len(tags) - tags.index(r["tag"])
     return True
